@@ -157,7 +157,7 @@ PROPS = {
              'encode_int/decode_int (C++); all filler is a zero constant; lane tables of all specialisations are mirror '
              'images; the C++ result vector is value-initialised and padding is only skipped.',
              'the relation between the two encodings of a given message value',
-             'taint/non-interference on the endianness parameter, zero-fill constant folding, byte-lane tables'),
+             'taint/non-interference on the endianness parameter, zero-fill constant folding, byte-lane tables', claimed=True),
     'C20': P('prophyc output deterministic',
              'No iteration order of a set flows to emitted text or list order; no hash/id/time/random/environ/pid source '
              'in prophyc; no absolute or cwd-dependent path reaches a translator; every module-level mutable or reused '
